@@ -74,9 +74,16 @@ if "HyteraIPSC.frame" in REGISTRY:
 from pyvc.pair import mutable
 
 for _n, _k in (("CRC16.calculate", 3), ("CRC32.calculate", 3), ("CRC9.calculate_from_parts", 3), ("ReedSolomon1294.generate", 1), ("ReedSolomon1294.check", 1),
-               ("HSTRP.from_bytes.over_approximation", 6), ("MBXML.uintvar", 2)):
+               ("HSTRP.from_bytes.over_approximation", 6), ("MBXML.uintvar", 2), ("HRNP.as_bytes", 3), ("HSTRP.as_bytes", 5), ("HDAP.as_bytes", 6),
+               ("TextMessagingService.as_bytes", 4), ("MBXML.from_bytes", 5)):
     if _n in REGISTRY:
-        mutable(REGISTRY[_n], pick=_k)
+        if _n in ("HSTRP.as_bytes", "HDAP.as_bytes", "HRNP.as_bytes"):
+            # (the TMP text argument is `str | bytes` by the constructor's own type test: a bytearray is outside its domain)
+            _ss = [x for x in REGISTRY[_n].shapes("quick") if "TMP" not in repr(x)]
+            _ss = _ss[:: max(1, len(_ss) // _k)][:_k + 2]
+            mutable(REGISTRY[_n], shapes=lambda tier, _ss=_ss: list(_ss))
+        else:
+            mutable(REGISTRY[_n], pick=_k)
 
 
 def _by_doc(name, docs, per=1):
